@@ -31,7 +31,7 @@ pub fn generate(seed: u64, index: u64, thorough: bool) -> Scenario {
     let (mut sc, d) = base_scenario(&mut rng, "C02", seed, index, kind, sizes, parallel, start, noise);
     // non-trivial weights are the point here: re-draw "none"/"ones" most of the time
     if sc.weights.is_none() && rng.chance(0.7) {
-        let wk = *rng.pick(&[WeightKind::Mild, WeightKind::Wide, WeightKind::WithNegatives, WeightKind::WithZeros]);
+        let wk = *rng.pick(&[WeightKind::Mild, WeightKind::Wide, WeightKind::WithNegatives, WeightKind::WithZeros, WeightKind::Constant]);
         sc.weights = gen_weights(&mut rng, wk, sc.n(), sc.width).map(|w| fxs(&w));
     }
     sc.opt.patience = sc.opt.patience.min(25);
